@@ -192,6 +192,7 @@ func (m *MapPollard) Modify(adds []Leaf, delHashes []Hash, proof Proof) error {
 	if err != nil {
 		return err
 	}
+	verifPoint("Modify.afterRemove")
 
 	err = m.add(adds)
 	if err != nil {
@@ -222,6 +223,7 @@ func (m *MapPollard) add(adds []Leaf) error {
 		}
 
 		m.NumLeaves++
+		verifPoint("add.afterLeaf")
 	}
 
 	return nil
@@ -633,6 +635,7 @@ func (m *MapPollard) remove(proof Proof, delHashes []Hash) error {
 	detwinedDels = deTwin(detwinedDels, m.TotalRows)
 	for _, del := range detwinedDels {
 		m.removeSingle(del)
+		verifPoint("remove.afterSingle")
 	}
 	return nil
 }
@@ -909,11 +912,13 @@ func (m *MapPollard) Undo(numAdds uint64, proof Proof, hashes, origPrevRoots []H
 	if err != nil {
 		return fmt.Errorf("Undo errored while undoing added leaves. %v", err)
 	}
+	verifPoint("Undo.afterUndoAdd")
 
 	err = m.undoDeletion(proof, hashes)
 	if err != nil {
 		return fmt.Errorf("Undo errored while undoing deleted leaves. %v", err)
 	}
+	verifPoint("Undo.afterUndoDeletion")
 
 	_, rootPos := m.getRoots()
 	for i := range rootPos {
@@ -1091,6 +1096,7 @@ func (m *MapPollard) verify(delHashes []Hash, proof Proof, remember bool) error 
 	}
 
 	if remember {
+		verifPoint("verify.beforeIngest")
 		m.ingest(delHashes, proof)
 	}
 
@@ -1151,6 +1157,7 @@ func (m *MapPollard) ingest(delHashes []Hash, proof Proof) error {
 			m.Nodes.Put(pos, Leaf{Hash: proof.Proof[i], Remember: m.Full})
 		}
 	}
+	verifPoint("ingest.afterProof")
 
 	// Calculate the intermediate positions and their hashes.
 	intermediate, _, err := calculateHashes(m.NumLeaves, delHashes, proof)
@@ -1210,6 +1217,7 @@ func (m *MapPollard) Prune(hashes []Hash) error {
 		// Mark the remember field as false and put that leaf in the map.
 		leaf.Remember = false
 		m.Nodes.Put(pos, leaf)
+		verifPoint("Prune.afterUnmark")
 
 		// Call prune positions until the root.
 		for row := DetectRow(pos, m.TotalRows); row <= TreeRows(m.NumLeaves); row++ {
@@ -1468,6 +1476,7 @@ func (m *MapPollard) Read(r io.Reader) (int, error) {
 	}
 	totalBytes += bytes
 	m.NumLeaves = binary.LittleEndian.Uint64(buf[:])
+	verifPoint("Read.afterHeader")
 
 	// Read the count for the cache leaf elements in the map.
 	bytes, err = r.Read(buf[:])
@@ -1495,6 +1504,7 @@ func (m *MapPollard) Read(r io.Reader) (int, error) {
 		m.CachedLeaves.Put(hash, binary.LittleEndian.Uint64(buf[:]))
 	}
 
+	verifPoint("Read.afterCached")
 	// Read the count for the node elements in the map.
 	bytes, err = r.Read(buf[:])
 	if err != nil {
